@@ -623,9 +623,20 @@ var labelNameRe = regexp.MustCompile(`^[a-z][a-z0-9_]*$`)
 // aux is a second, independent stream used only by shapeMetrics (so that the
 // masks / events / field lists drawn from rng are the same with and without
 // that step); shape forces one cell of the metrics matrix, nil = random.
-func genCase(rng *rand.Rand, id int, class string, nEvents int, aux *rand.Rand, shape *metricsShape) *testCase {
+// genCase: ext selects a family of the extension batches ("" otherwise):
+// "longlist" puts 61-72 never-matching filler masks in front of three
+// generated ones, which all get a mask-specific process/ignore list (mask
+// indices around and beyond 64); "doif" gives one or more masks a do_if on
+// the top-level field "dk" and every event a "dk" value (on/off/other/absent).
+func genCase(rng *rand.Rand, id int, class string, nEvents int, aux *rand.Rand, shape *metricsShape, ext string) *testCase {
 	tc := &testCase{ID: id, Class: class}
 	nm := 1 + rng.Intn(3)
+	if ext == "longlist" {
+		nm = 3
+		for i, n := 0, 61+rng.Intn(12); i < n; i++ {
+			tc.Config.Masks = append(tc.Config.Masks, maskCfg{Re: fmt.Sprintf("(ZQfiller%dQZ)", i), Groups: []int{0}, GenClass: "filler"})
+		}
+	}
 	var exprs []*rx
 	hostileAt := -1
 	if class == "hostile" {
@@ -664,6 +675,9 @@ func genCase(rng *rand.Rand, id int, class string, nEvents int, aux *rand.Rand, 
 	}
 	for i := range tc.Config.Masks {
 		m := &tc.Config.Masks[i]
+		if m.GenClass == "filler" {
+			continue
+		}
 		if rng.Intn(3) == 0 || m.GenClass == "rules-only" {
 			m.AppliedField = fmt.Sprintf("applied_%d", i)
 			m.AppliedValue = fmt.Sprintf("v%d", i)
@@ -674,9 +688,39 @@ func genCase(rng *rand.Rand, id int, class string, nEvents int, aux *rand.Rand, 
 		}
 	}
 	// events
+	if ext == "doif" {
+		k := rng.Intn(len(tc.Config.Masks))
+		for i := range tc.Config.Masks {
+			if i == k || rng.Intn(3) == 0 {
+				vals := [][]string{{"on"}, {"on", "ON"}, {"off"}}[rng.Intn(3)]
+				tc.Config.Masks[i].DoIf = &doIfCfg{Op: "equal", Field: "dk", Values: vals}
+			}
+		}
+		avoid["dk"] = true
+	}
 	eg := &evGen{rng: rng, exprs: exprs, avoid: avoid}
 	for i := 0; i < nEvents; i++ {
 		t := eg.event()
+		if ext == "doif" {
+			var dv *jnode
+			switch r := rng.Intn(20); {
+			case r < 8:
+				dv = &jnode{Kind: kStr, Text: "on"}
+			case r < 16:
+				dv = &jnode{Kind: kStr, Text: "off"}
+			case r < 17:
+				dv = &jnode{Kind: kStr, Text: "ON"}
+			case r < 18:
+				dv = &jnode{Kind: kStr, Text: "on "}
+			case r < 19:
+				dv = &jnode{Kind: kNum, Text: "1"}
+			}
+			if dv != nil {
+				at := rng.Intn(len(t.Keys) + 1)
+				t.Keys = append(t.Keys[:at], append([]string{"dk"}, t.Keys[at:]...)...)
+				t.Vals = append(t.Vals[:at], append([]*jnode{dv}, t.Vals[at:]...)...)
+			}
+		}
 		tc.trees = append(tc.trees, t)
 		tc.Events = append(tc.Events, encodeJSON(t, rng))
 	}
@@ -721,6 +765,19 @@ func genCase(rng *rand.Rand, id int, class string, nEvents int, aux *rand.Rand, 
 		}
 		if !any {
 			tc.Config.Masks[0].ProcessFields = pickPaths(rng, pool, 1+rng.Intn(2))
+		}
+	}
+	if ext == "longlist" { // every generated mask (the ones with the highest indices) has a list of its own
+		for i := range tc.Config.Masks {
+			m := &tc.Config.Masks[i]
+			if m.GenClass == "filler" || len(m.IgnoreFields) > 0 || len(m.ProcessFields) > 0 {
+				continue
+			}
+			if rng.Intn(2) == 0 {
+				m.IgnoreFields = pickPaths(rng, pool, 1+rng.Intn(2))
+			} else {
+				m.ProcessFields = pickPaths(rng, pool, 1+rng.Intn(2))
+			}
 		}
 	}
 	if aux != nil {
